@@ -9,6 +9,9 @@ pub mod c01;
 pub mod c02;
 pub mod c03;
 pub mod c04;
+pub mod c05;
+pub mod c11;
+pub mod mixed;
 pub mod c10;
 pub mod c12;
 pub mod c13;
@@ -125,6 +128,8 @@ pub fn run_batch(u: &mut Universe, b: &Batch, st: &mut Stats) {
         "C02" => c02::run(u, b, st),
         "C03" => c03::run(u, b, st),
         "C04" => c04::run(u, b, st),
+        "C05" => c05::run(u, b, st),
+        "C11" => c11::run(u, b, st),
         "C12" => c12::run(u, b, st),
         "C13" => c13::run(u, b, st),
         "C14" => c14::run(u, b, st),
@@ -160,6 +165,14 @@ pub fn run_check(id: &str, tier: &str, seed: u64, jobs: usize) -> i32 {
             c14::finalise(tier, seed, res)
         }
         "C04" => c04::check(tier, seed, jobs),
+        "C05" => {
+            let res = crate::coord::run_batches(c05::plan(tier, seed), jobs);
+            c05::finalise(tier, seed, res)
+        }
+        "C11" => {
+            let res = crate::coord::run_batches(c11::plan(tier, seed), jobs);
+            c11::finalise(tier, seed, res)
+        }
         "C10" => {
             let probe = crate::coord::run_batches(c10::plan_probe(tier, seed), jobs);
             let total = probe.stats.counters.get("placements_total").copied().unwrap_or(0);
